@@ -384,6 +384,12 @@ def rule_g(ctx):
     rep.require('C09.g', 'dereferences of the optional channel subscription', n, 4)
 
 
+def rule_rx(ctx):
+    """Disposing an Rx observable cancels the stream behind it (shared C20.d)."""
+    from .c20 import rule_d as c20d
+    c20d(ctx)
+
+
 def rule_order(ctx):
     # per-stream FIFO on the wire: a terminal/control frame must not overtake fragments of its own stream
     from .c05 import rule_a as c05a, rule_b as c05b
@@ -395,4 +401,4 @@ def rule_order(ctx):
 
 
 RULES = [('C09.a', rule_a), ('C09.b', rule_b), ('C09.c', rule_c), ('C09.d', rule_d), ('C09.e', rule_e),
-         ('C09.f', c07b), ('C09.g', rule_g), ('C05.a', rule_order)]
+         ('C09.f', c07b), ('C09.g', rule_g), ('C05.a', rule_order), ('C20.d', rule_rx)]
